@@ -857,7 +857,8 @@ def op_topk(g):
 
 def op_nonzero(g):
     # rank >= 1: for a rank-0 input the spec (and onnx shape inference) says the result is [0, n], ORT returns [1, n]
-    x = g.pick(lambda v: (_num(v) or v.dtype.kind == "b") and v.rank >= 1)
+    # not on a nondeterministic value: the result's SHAPE would be random, and shapes of nondeterministic outputs are compared
+    x = g.pick(lambda v: (_num(v) or v.dtype.kind == "b") and v.rank >= 1 and not v.nondet)
     return g.add("NonZero", [x], mag=8)
 
 
